@@ -1,18 +1,55 @@
-use graphql_tools::parser::{parse_query, parse_schema};
-use graphql_tools::validation::rules::default_rules_validation_plan;
-use graphql_tools::validation::validate::validate;
+mod enc;
+mod gen;
+mod intern;
+mod recorder;
+mod rng;
+mod schemas;
+
+use graphql_tools::ast::{visit_document, OperationVisitorContext};
+use serde_json::json;
+use std::io::Write;
+
+fn env_seed() -> u64 { std::env::var("VERIF_SEED").ok().and_then(|s| s.parse().ok()).unwrap_or(0) }
+
+/// run the real visitor with the recorder; None if it panicked
+fn real_trace(schema: &graphql_tools::static_graphql::schema::Document, doc: &graphql_tools::static_graphql::query::Document) -> Option<(Vec<String>, String)> {
+    let r = std::panic::catch_unwind(std::panic::AssertUnwindSafe(|| {
+        let mut ctx = OperationVisitorContext::new(doc, schema);
+        let mut rec = recorder::Recorder::default();
+        visit_document(&mut rec, doc, &mut ctx, &mut ());
+        let fin = recorder::snap(&ctx);
+        (rec.lines, fin)
+    }));
+    r.ok()
+}
 
 fn main() {
     let args: Vec<String> = std::env::args().collect();
-    if args.len() >= 4 && args[1] == "probe" {
-        let s = std::fs::read_to_string(&args[2]).unwrap();
-        let q = std::fs::read_to_string(&args[3]).unwrap();
-        let schema = parse_schema::<String>(&s).unwrap().into_static();
-        let doc = parse_query::<String>(&q).unwrap().into_static();
-        let plan = default_rules_validation_plan();
-        let errs = validate(&schema, &doc, &plan);
-        for e in errs {
-            println!("{} | {} | {:?}", e.error_code, e.message, e.locations);
+    std::panic::set_hook(Box::new(|_| {}));
+    let cmd = args.get(1).map(|s| s.as_str()).unwrap_or("");
+    match cmd {
+        "gen-trace" => {
+            let n: usize = args[2].parse().unwrap();
+            let out = &args[3];
+            let mut lines: Vec<String> = vec![];
+            let mut rng = rng::Rng::new(env_seed());
+            for (name, text) in schemas::pool() {
+                let si = gen::SchemaInfo::new(name, &text);
+                lines.push(json!({"op": "schema", "name": name, "ast": enc::schema(&si.doc)}).to_string());
+                for i in 0..n {
+                    let noise = [0, 5, 25][i % 3];
+                    let mut g = gen::DocGen::new(&si, rng.fork(), noise, 3);
+                    let text = g.document();
+                    let doc = match gen::parse_doc(&text) { Some(d) => d, None => { eprintln!("unparseable: {}", text); continue; } };
+                    let (impl_lines, fin) = match real_trace(&si.doc, &doc) { Some(x) => (Some(x.0), Some(x.1)), None => (None, None) };
+                    lines.push(json!({"op": "trace", "src": text, "doc": enc::document(&doc),
+                        "impl": {"outcome": if impl_lines.is_some() {"ok"} else {"panic"}, "lines": impl_lines, "final": fin}}).to_string());
+                }
+            }
+            let mut f = std::io::BufWriter::new(std::fs::File::create(out).unwrap());
+            writeln!(f, "{}", json!({"op": "strings", "tab": intern::table()})).unwrap();
+            for l in lines { writeln!(f, "{}", l).unwrap(); }
         }
+        _ => { eprintln!("usage: gqlv gen-trace N OUT"); std::process::exit(2); }
     }
 }
